@@ -133,11 +133,12 @@ def literalBound (q : Event) (D : List Var) : Bool :=
   q.any fun p => p.1.ivs.any fun i =>
     decide (i.name ∈ D.map (·.name)) && decide (i.name ∉ q.map (·.1.name))
 
-/-- **outcome-parent-value**: a member of `An(Y_*)` has a parent `P` in `An(Y_*)` that is an outcome whose event value is
-not `-P` (it is `+P` or `None`) -/
+/-- **outcome-parent-value**: a member `W_z` of `An(Y_*)` has a parent `P` that it does not intervene on (so the
+conversion ADDS the subscript `-P`) and `P` is an outcome whose event value is not `-P` (it is `+P` or `None`) -/
 def outcomeParentValue (g : MG Name) (q : Event) (D : List Var) : Bool :=
   D.any fun w => (g.parents w.name).any fun p =>
-    decide (p ∈ D.map (·.name)) && q.any fun it => decide (it.1.name = p ∧ it.2 ≠ some ⟨p, false⟩)
+    decide (p ∉ w.ivs.map (·.name)) && decide (p ∈ D.map (·.name)) &&
+      q.any fun it => decide (it.1.name = p ∧ it.2 ≠ some ⟨p, false⟩)
 
 /-- the three class flags of a query: (multi-world, literal-bound, outcome-parent-value) -/
 def factorizeClasses (g : MG Name) (q : Event) : Except Err (Bool × Bool × Bool) := do
